@@ -4,12 +4,18 @@ def main(tier, args):
     t0 = time.time()
     exe = vf.build("C06/stream", [vf.VERIF + "/checks/C06/harness.cpp"], vf.module_sources("event", "network", "util/buffer.cpp", "util/fd.cpp", "util/string.cpp", "util/fs.cpp", "util/serializer.cpp"), mode="asan",
                    plain_srcs=[vf.VERIF + "/engine/sched/log_stub.cpp"])
+    tcp = vf.build("C06/tcp", [vf.VERIF + "/checks/C06/tcp_harness.cpp"], vf.module_sources("event", "network", "util/buffer.cpp", "util/fd.cpp", "util/string.cpp", "util/fs.cpp", "util/serializer.cpp"), mode="asan",
+                   plain_srcs=[vf.VERIF + "/engine/sched/log_stub.cpp"])
+    import os; sockdir = vf.BUILD + "/C06/sock"; os.makedirs(sockdir, exist_ok=True)
     depth, dl, maxdev, np = (6, 80, 1, 4) if tier == "quick" else (7, 1300, 2, 8)
+    tdepth, tnp = (5, 4) if tier == "quick" else (7, 8)
     res = vf.Result(); log = open(vf.BUILD + "/C06/log.txt", "w")
     jobs = []
     cfgs = [("bfd", 0, 0), ("bfd", 1, 1), ("bfd", 3, 3), ("bfd", 0, 2), ("tcp", 0, 0), ("tcp", 3, 1)]
     for e in ("epoll", "select"):
         jobs.append(("bulk:%s" % e, [exe, "bulk", e]))
+        for p in range(tnp):
+            jobs.append(("tcp:%s:p%d" % (e, p), [tcp, e, str(tdepth), sockdir, str(p), str(tnp)]))
         for (mode, thr, pol) in cfgs:
             for p in range(np):
                 jobs.append(("hist:%s:%s:thr%d:pol%d:p%d" % (e, mode, thr, pol, p), [exe, "hist", e, str(depth), mode, str(thr), str(pol), str(maxdev), str(p), str(np)]))
@@ -18,5 +24,5 @@ def main(tier, args):
     vf.finish(PID, tier, res, t0,
               rule="BFS (depth %d, canonical-state dedup) over all histories of send(1|2|5)/enable/disable/peer-read/peer-write/peer-close/loop-pass with <=%d injected I/O deviations (next write returns 1 byte, next write EAGAIN, next readv 1 byte) on the real BufferedFd and TcpConnection over a socketpair, "
                    "both back-ends, receive threshold in {0,1,3} x consumption policy {all,1 byte,none,all-but-1}; after every history the loop is run to quiescence with the peer draining; byte-exact std::string reference for both directions; "
-                   "plus a bulk lane with real kernel back-pressure (64 KiB-2 MiB, SO_SNDBUF 4 KiB, sends before/after enable)" % (depth, maxdev),
+                   "plus a TcpServer+TcpClient lane (real acceptor/connector over a unix-domain socket, 2 clients, client/server sends, client stop, server disconnect/stop, depth %d) and a bulk lane with real kernel back-pressure (64 KiB-2 MiB, SO_SNDBUF 4 KiB, sends before/after enable)" % (depth, maxdev, tdepth),
               assumptions=["at raw BufferedFd level the harness disables the descriptor in its read-zero callback, as every in-tree user does (DESIGN 1.7)", "bytes below the receive threshold stay buffered (not counted as lost)"])
